@@ -383,6 +383,11 @@ def run_shard(spec, res):
                                   if i >= 10000)
                     invs = {n: {'total': 4} for n in
                             rng.sample(have, min(len(have), 2))}
+                    # (standard classes in use as well: deleting them stays
+                    # a 400 whatever else is wrong with the request)
+                    for n in ('VCPU', 'DISK_GB'):
+                        if rng.random() < 0.5:
+                            invs[n] = {'total': 8}
                     nclass, name = 'inv', ','.join(invs)
                     req = Req('PUT', '/resource_providers/%s/inventories'
                               % RP, '1.39', {
